@@ -157,6 +157,7 @@ def module_spec(draw, role):
         items.append(draw(class_spec(name)) if kind == "class" else draw(func_spec(name)))
     spec = {"items": items, "consts": [], "doc": False}
     if role == "in":
+        spec["shadow"] = draw(st.integers(0, 3)) == 3
         for cn in draw(st.lists(st.sampled_from(CONSTS), min_size=1, max_size=2, unique=True)):
             spec["consts"].append({"name": cn, "seq": draw(st.sampled_from(("tuple", "tuple", "list"))),
                                    "values": draw(st.lists(st.sampled_from(CONST_ITEMS), min_size=1, max_size=4)),
@@ -281,6 +282,12 @@ def render_module(spec):
                 out.append("%s = %s + [%s]" % (c["name"], c["name"], extra))
             else:
                 out.append("%s += (%s,)" % (c["name"], extra))
+    if spec.get("shadow"):
+        # a module-level annotated variable named like an attribute of the first class (settings modules often keep a
+        # module-wide default next to the class): `Class.attr` must still select the attribute of the class
+        cls = next((it for it in spec["items"] if it["kind"] == "class" and it.get("attrs")), None)
+        if cls is not None:
+            out += ["", "%s: bytes = b'module-level'" % cls["attrs"][0]["name"]]
     for it in spec["items"]:
         out += ["", ""]
         out += render_class(it) if it["kind"] == "class" else render_func(it)
